@@ -234,6 +234,10 @@ def device_membership(ctx, rng):
             ("scale_both_negative2", dev.scale(xfact=-2.0, yfact=-0.5), lambda q: q * np.array([-2.0, -0.5])),
             ("rotate", dev.rotate(90.0), lambda q: q @ np.array([[0.0, 1.0], [-1.0, 0.0]])),
             ("translate", dev.translate(dx=0.7, dy=-0.4), lambda q: q + np.array([0.7, -0.4])),
+            # about an origin other than (0, 0): shapes and probe points must use the same origin
+            ("rotate_about_origin", dev.rotate(30.0, origin=(0.8, -0.5)),
+             lambda q: (q - np.array([0.8, -0.5])) @ np.array([[np.cos(np.pi / 6), np.sin(np.pi / 6)], [-np.sin(np.pi / 6), np.cos(np.pi / 6)]]) + np.array([0.8, -0.5])),
+            ("scale_about_origin", dev.scale(xfact=1.5, yfact=-0.5, origin=(0.8, -0.5)), lambda q: (q - np.array([0.8, -0.5])) * np.array([1.5, -0.5]) + np.array([0.8, -0.5])),
         ):
             ctx.case(("device-transform", kind, tname), nontrivial=True)
             ctx.count(f"device_transform:{tname}")
